@@ -338,6 +338,36 @@ func gen(g *core.G) {
 			g.Emit("trans " + s(lat.Call(nil, &r, nil)) + " " + s(lat.Call(nil, nil, nil)) + " " + s(cc))
 		}
 	}
+	// (ii-e) the case family: case-insensitive Enums next to String['Mixed'], Enums (cs and ci, also built by the constructor from mixed
+	// spellings) and Patterns whose spellings differ in case only — every pair (acceptance, equality), the triples (quick: 1/3), and every pair
+	// as members of an Array / Variant / Struct / Optional
+	cf := lat.CaseFamily()
+	for _, a := range cf {
+		for _, b := range cf {
+			g.Emit("asg " + s(a) + " " + s(b))
+			g.Emit("eq " + s(a) + " " + s(b))
+			g.Emit("asg " + s(lat.Arr(a, 0, 2)) + " " + s(lat.Arr(b, 1, 2)))
+			g.Emit("asg " + s(lat.Var(a, lat.Atom("undef"))) + " " + s(lat.Opt(b)))
+			g.Emit("asg " + s(lat.Struct(lat.Mem("k", true, a))) + " " + s(lat.Struct(lat.Mem("k", false, b))))
+			for _, cc := range cf {
+				if g.Thorough() || g.Rng.Intn(3) == 0 {
+					g.Emit("trans " + s(a) + " " + s(b) + " " + s(cc))
+				}
+			}
+		}
+	}
+	for i, vs := range lat.EnumSpellingLists(false, g.Rng.Intn) { // the constructor's Enums against the words and against each other
+		t := lat.EnumRaw(true, vs...)
+		for _, w := range lat.CaseStrings() {
+			g.Emit("asg " + s(t) + " " + s(lat.StrVal(w)))
+			g.Emit("trans " + s(t) + " " + s(lat.Enum(false, w, "Ab")) + " " + s(lat.StrVal(w)))
+		}
+		g.Emit("eq " + s(t) + " " + s(lat.CanonEnum(t)))
+		g.Emit("asg " + s(t) + " " + s(lat.EnumRaw(false, vs...)))
+		if i%4 == 0 {
+			g.Emit("asg " + lat.Txt(lat.EnumText(true, vs)).String() + " " + s(lat.EnumRaw(false, vs...)))
+		}
+	}
 	// equality across the universe (mostly false; equal-but-different terms are what matters)
 	for i := 0; i < 2000*g.Scale; i++ {
 		g.Emit("eq " + s(pick(u1)) + " " + s(pick(u1)))
